@@ -121,6 +121,13 @@ def check(model: Model, run: Run) -> None:
         # dispatcher shape: context class + id comparison over options.choices
         bfi = model.find_method(base, "unpack")
         src = ast.unparse(bfi.node) if bfi else ""
+        if bfi is not None:
+            # the dispatcher may delegate the search to private module-level helpers
+            for n_ in ast.walk(bfi.node):
+                if isinstance(n_, ast.Call) and isinstance(n_.func, ast.Name):
+                    q_ = model.resolve_name(bfi.module, n_.func.id)
+                    if q_ in model.functions and model.functions[q_].cls is None and not isinstance(model.functions[q_].node, ast.Lambda):
+                        src += "\n" + ast.unparse(model.functions[q_].node)
         import re as _re
         ok = bfi is not None and "CONTEXT_SPECIFIC" in src and bool(_re.search(rf"\.{idattr}\s*(==|!=)|(==|!=)\s*[\w.]+\.{idattr}\b", src)) and "options.choices" in src and "tag_number" in src
         run.ob("D4-choice-dispatcher", ok, {"base": short(base)})
